@@ -217,7 +217,15 @@ func raceKey(blk string) string {
 // DeadlockWitness returns a non-empty summary iff the dump shows at least two
 // goroutines inside semadb code blocked on sync primitives and no goroutine
 // with a semadb frame that is runnable, running or in a syscall.
-func DeadlockWitness(dump string) string {
+func DeadlockWitness(dump string) string { return DeadlockWitnessMin(dump, 2) }
+
+// DeadlockWitnessMin is DeadlockWitness with a chosen minimum number of goroutines blocked on a lock
+// inside semadb code. min = 1 covers a leaked lock (the holder returned without unlocking): one
+// goroutine waits for a mutex while no goroutine at all is running, runnable or in a syscall inside
+// semadb code, so nobody is left who could release it. Callers using min = 1 must make sure that no
+// harness goroutine legitimately holds the lock while being outside semadb code (e.g. by sampling
+// twice, long after every harness delay has expired).
+func DeadlockWitnessMin(dump string, min int) string {
 	blocks := strings.Split(dump, "\n\n")
 	blocked := []string{}
 	active := 0
@@ -251,7 +259,7 @@ func DeadlockWitness(dump string) string {
 			active++
 		}
 	}
-	if len(blocked) >= 2 && active == 0 {
+	if len(blocked) >= min && active == 0 {
 		sort.Strings(blocked)
 		// dedupe
 		uniq := []string{}
